@@ -74,7 +74,7 @@ def gen_scenario(rng, seed, idx, mt):
         actors.append({"name": "clk", "kind": "clock", "ticks": rng.choice([1, 2]), "tick_ms": rng.choice([1001, 3])})
     sc = {"seed": seed * 100003 + idx, "block": 64, "rowset": rng.choice([200, 1000]), "crc": True, "mt": mt,
           "setup": setup, "actors": actors, "p_yield": rng.choice([0, 30, 70]), "max_yields": rng.choice([1, 4]),
-          "p_sleep": rng.choice([0, 10]), "p_long_sleep": rng.choice([0, 10]),
+          "p_sleep": rng.choice([0, 10]), "p_long_sleep": rng.choice([0, 10]), "p_sync_delay": rng.choice([0, 30]),
           "final": ["select * from pg_catalog.pg_tables"] + [f"select uid, k from {n}" for n in NAMES],
           "reopen": True, "final_ticks": 1 if mt else 2, "virtual_deadline_ms": 3_600_000}
     return sc, pre, specs
@@ -153,7 +153,7 @@ def explain(sessions, init, final, budget=300000, stale_delete_snapshot=False):
                             return True
                     continue
                 cap = snaps[i]
-                if name in state and cap <= state[name] and result == len(cap):
+                if name in state and cap <= state[name] and (result is None or result == len(cap)):
                     ns = dict(state)
                     ns[name] = state[name] - cap
                     npos = pos[:i] + (pos[i] + 1,) + pos[i + 1:]
@@ -166,7 +166,8 @@ def explain(sessions, init, final, budget=300000, stale_delete_snapshot=False):
             if ok:
                 if mok:
                     if spec[0] in ("insert", "delete", "delete_k"):
-                        good = result == mres
+                        # (the PostgreSQL-protocol server acknowledges DML with "OK", without a count)
+                        good = result is None or result == mres
                     elif spec[0] == "select":
                         good = result == mres
                     else:
@@ -286,7 +287,167 @@ def run_case(args):
                 sample=dict(mt=mt, sessions=[a["stmts"][:4] for a in sc["actors"] if a["kind"] == "sql"][:3]))
 
 
+def free_port():
+    import socket
+    s = socket.socket()
+    s.bind(("127.0.0.1", 0))
+    port = s.getsockname()[1]
+    s.close()
+    return port
+
+
+def run_pg_scenario(sc, specs, workers):
+    """The same scenario through the real PostgreSQL-protocol server (`rlv serve` =
+    risinglight::server::run_server on a multi-thread runtime): one TCP connection per session,
+    simple-query protocol. -> (out, err) in the format of run_scenario."""
+    import subprocess
+    import threading
+    import time
+    from common import RLV, scratch_dir, rm, Runner, die_with_parent
+    from pgclient import PgConn, PgClosed
+    d = scratch_dir("pg")
+    path = os.path.join(d, "db")
+    srv = None
+    lines = []
+    try:
+        for attempt in range(3):
+            port = free_port()
+            srv = subprocess.Popen([RLV, "serve", str(port), str(workers), "disk", path, str(sc["block"]), str(sc["rowset"])],
+                                   stdout=subprocess.PIPE, stderr=subprocess.DEVNULL, text=True, preexec_fn=die_with_parent)
+            first = srv.stdout.readline()
+            if first.startswith("LISTENING"):
+                break
+            srv.kill()
+            srv.wait()
+            srv = None
+            if first.startswith("OPEN-FAILED"):
+                return None, "server could not open the database: " + first.strip()
+        if srv is None:
+            return None, "server did not start"
+        threading.Thread(target=lambda: lines.extend(srv.stdout), daemon=True).start()
+
+        def connect():
+            for _ in range(50):
+                try:
+                    return PgConn(port, timeout=180.0)
+                except (ConnectionRefusedError, OSError):
+                    time.sleep(0.05)
+            raise RuntimeError("cannot connect")
+
+        def to_hist(sql, r):
+            if r["ok"]:
+                rows = [[int(c) if c is not None and c.lstrip("-").isdigit() else c for c in row] for row in r["rows"]]
+                return {"sql": sql, "ok": True, "stmts": [[{"rows": rows}]]}
+            return {"sql": sql, "ok": False, "err": r["err"]}
+
+        c = connect()
+        for q in sc["setup"]:
+            r = c.query(q)
+            if not r["ok"]:
+                return None, f"setup failed: {q}: {r['err']}"
+        c.close()
+        actors = [a for a in sc["actors"] if a["kind"] == "sql"]
+        results = [None] * len(actors)
+
+        def session(i):
+            hist = []
+            conn = None
+            try:
+                conn = connect()
+                for q in actors[i]["stmts"]:
+                    try:
+                        hist.append(to_hist(q, conn.query(q)))
+                    except PgClosed:
+                        hist.append({"sql": q, "ok": False, "panic": True, "closed": True, "err": "the server closed the connection"})
+                        conn = connect()
+                    except OSError as e:   # socket timeout
+                        hist.append({"sql": q, "ok": False, "stuck": True, "wall": True, "err": f"no answer: {e}"})
+                        break
+                results[i] = {"history": hist}
+            except Exception as e:
+                results[i] = {"error": f"client: {type(e).__name__}: {e}", "history": hist}
+            finally:
+                if conn:
+                    conn.close()
+        ths = [threading.Thread(target=session, args=(i,)) for i in range(len(actors))]
+        for t in ths:
+            t.start()
+        for t in ths:
+            t.join()
+        out = {"actors": results, "panics": [], "events": [], "setup_events": []}
+        # final state through a fresh connection
+        fin = []
+        c = connect()
+        for q in sc["final"]:
+            try:
+                fin.append(to_hist(q, c.query(q)))
+            except PgClosed:
+                fin.append({"sql": q, "ok": False, "err": "the server closed the connection", "closed": True})
+                c = connect()
+        c.close()
+        out["final"] = fin
+        time.sleep(0.05)
+        srv.kill()
+        srv.wait()
+        time.sleep(0.02)
+        out["panics"] = [l[6:].strip() for l in lines if l.startswith("PANIC ")]
+        # the directory must open again (the server was killed: everything acknowledged is durable)
+        r = Runner()
+        try:
+            resp = r.cmd({"op": "open", "engine": "disk", "path": path, "block": sc["block"], "rowset": sc["rowset"], "crc": True}, timeout=120)
+            out["reopen"] = resp
+            if resp.get("ok"):
+                out["final_after_reopen"] = []
+                for q in sc["final"]:
+                    x = r.sql(q, timeout=120)
+                    x["sql"] = q
+                    out["final_after_reopen"].append(x)
+        except Exception as e:
+            out["reopen"] = {"ok": False, "err": f"{type(e).__name__}: {e}"}
+        finally:
+            r.close()
+        return out, None
+    except Exception as e:
+        import traceback
+        return None, f"pg leg harness: {type(e).__name__}: {e} {traceback.format_exc()[-200:]}"
+    finally:
+        if srv and srv.poll() is None:
+            srv.kill()
+            srv.wait()
+        rm(d)
+
+
+def run_pg_case(args):
+    seed, idx, workers = args
+    rng = random.Random(f"c10-pg-{seed}-{idx}-{workers}")
+    sc, pre, specs = gen_scenario(rng, seed, idx, workers)
+    out, err = run_pg_scenario(sc, specs, workers)
+    if out is None:
+        return dict(seed=seed, idx=idx, mt=workers, pg=True, inconclusive=err, violations=[], info=None)
+    try:
+        wall = [hh for a in out["actors"] for hh in (a or {}).get("history", []) if hh.get("wall")]
+        if wall:
+            return dict(seed=seed, idx=idx, mt=workers, pg=True, inconclusive="wall-clock watchdog on a connection", violations=[], info=None)
+        closed = [hh for a in out["actors"] for hh in (a or {}).get("history", []) if hh.get("closed")] + [hh for hh in out["final"] if hh.get("closed")]
+        if closed:
+            # the connection task died (its panic is in out["panics"]); the statement's effect is unknown: no order search
+            v = [("pg:connection-dropped:" + (panic_site(out["panics"][0]) if out["panics"] else "no-panic-recorded"),
+                  f"{closed[0]['sql'][:100]}: the server closed the connection; panics {out['panics'][:2]}")]
+            return dict(seed=seed, idx=idx, mt=workers, pg=True, inconclusive=None, violations=v,
+                        info=dict(stmts=0, acked=0, failed=0, verdict=None, mt=workers, sig=None), sample=dict(pg=True, mt=workers, sessions=[a["stmts"][:4] for a in sc["actors"] if a["kind"] == "sql"][:3]))
+        v, info = judge(sc, pre, specs, out)
+    except Exception as e:
+        import traceback
+        return dict(seed=seed, idx=idx, mt=workers, pg=True, inconclusive=f"oracle error: {type(e).__name__}: {e} {traceback.format_exc()[-300:]}", violations=[], info=None)
+    return dict(seed=seed, idx=idx, mt=workers, pg=True, inconclusive=None, violations=[("pg:" + s_, w_) for s_, w_ in v], info=info,
+                sample=dict(pg=True, mt=workers, sessions=[a["stmts"][:4] for a in sc["actors"] if a["kind"] == "sql"][:3]))
+
+
 def sentinel(w):
+    if w.get("churn"):
+        return run_churn_case((w["seed"], w["idx"], w["mt"]))["violations"]
+    if w.get("pg"):
+        return run_pg_case((w["seed"], w["idx"], w["mt"]))["violations"]
     if "scenario" in w:
         # a directed schedule (gates) stored with its model inputs
         out, err = run_scenario(w["scenario"], timeout=120)
@@ -301,28 +462,109 @@ def sentinel(w):
     return res["violations"]
 
 
+def run_churn_case(args):
+    """DDL churn on a multi-thread runtime: one session creates and drops a table over and over while
+    the others select from / insert into / delete from that name. Too long for the serial-order
+    search; judged for: no panic, no stuck session, every failure is an ordinary error, the final state
+    is readable and survives a reopen."""
+    seed, idx, workers = args
+    rng = random.Random(f"c10-churn-{seed}-{idx}-{workers}")
+    n = rng.choice([30, 60])
+    ddl = []
+    for _ in range(n):
+        ddl += ["create table ta(uid int not null, k int)", "drop table ta"]
+    actors = [{"name": "s0", "kind": "sql", "stmts": ddl, "stmt_timeout_ms": 900000}]
+    uid = 0
+    for si in range(rng.choice([2, 3])):
+        stmts = []
+        for _ in range(2 * n):
+            x = rng.random()
+            if x < 0.5:
+                stmts.append("select uid, k from ta")
+            elif x < 0.8:
+                uid += 1
+                stmts.append(f"insert into ta values ({uid}, {rng.randint(0, 3)})")
+            else:
+                stmts.append(f"delete from ta where k = {rng.randint(0, 3)}")
+        actors.append({"name": f"s{si + 1}", "kind": "sql", "stmts": stmts, "stmt_timeout_ms": 900000})
+    sc = {"seed": seed * 7919 + idx, "block": 64, "rowset": 1000, "crc": True, "mt": workers, "setup": [], "actors": actors,
+          "p_yield": 0, "max_yields": 1, "p_sleep": 0, "p_long_sleep": 0, "p_sync_delay": rng.choice([40, 70]),
+          "final": ["select * from pg_catalog.pg_tables"], "reopen": True, "final_ticks": 1, "virtual_deadline_ms": 3_600_000}
+    out, err = run_scenario(sc, timeout=300)
+    if out is None:
+        return dict(seed=seed, idx=idx, mt=workers, churn=True, inconclusive=err, violations=[], info=None)
+    v = []
+    stmts = acked = failed = 0
+    if out.get("error"):
+        v.append(("database-open-failed", out["error"]))
+    for p_ in out.get("panics", []):
+        v.append(("panic:" + panic_site(p_), p_[:200]))
+    for a in out.get("actors", []):
+        if a.get("error"):
+            v.append(("session-task-failed", a["error"]))
+        for hh in a.get("history", []):
+            stmts += 1
+            if hh.get("panic"):
+                v.append(("session-panicked", hh["sql"][:80]))
+            elif hh.get("stuck"):
+                v.append(("session-stuck", f"{hh['sql'][:80]}: {hh.get('err')}"))
+            elif hh["ok"]:
+                acked += 1
+            else:
+                failed += 1
+    fin = out.get("final", [])
+    if not fin or not fin[0]["ok"]:
+        v.append(("final-state-unreadable", str(fin)[:200]))
+    if out.get("reopen") is not None and not out["reopen"].get("ok"):
+        v.append(("reopen-failed", str(out["reopen"])[:200]))
+    return dict(seed=seed, idx=idx, mt=workers, churn=True, inconclusive=None, violations=[("churn:" + s_, w_) for s_, w_ in v],
+                info=dict(stmts=stmts, acked=acked, failed=failed, verdict="churn", mt=workers, sig=None),
+                sample=dict(churn=True, mt=workers, sessions=[a["stmts"][:3] for a in actors][:3]))
+
+
+def run_any_case(args):
+    if len(args) == 4 and args[3] == "pg":
+        return run_pg_case(args[:3])
+    if len(args) == 4 and args[3] == "churn":
+        return run_churn_case(args[:3])
+    return run_case(args)
+
+
 def run(tier, seed):
     rep = Report("C10", tier, seed, "exploration")
     n_ct, n_mt = (150, 150) if tier == "quick" else (10000, 10000)
+    n_pg = 60 if tier == "quick" else 3000
     rep.rule = ("2-4 sessions x 2-6 statements (CREATE/DROP TABLE on 2 colliding names, INSERT with unique ids, DELETE by id and by predicate (overlapping between sessions), SELECT) "
-                "on (a) current-thread runtime + hook perturbation and (b) multi-thread runtime with 2..16 workers; offline search "
+                "on (a) current-thread runtime + hook perturbation, (b) multi-thread runtime with 2..16 workers and (c) the real PostgreSQL-protocol server (one TCP connection per session, simple-query protocol, then SIGKILL + reopen); offline search "
                 "for an explaining serial order; distinct non-trivial = distinct histories in which at least two sessions had "
                 "acknowledged statements on the same table name")
     rng = random.Random(seed)
     items = [(seed, i, 0) for i in range(n_ct)] + [(seed, i, rng.choice([2, 4, 8, 16])) for i in range(n_mt)]
-    tot = dict(stmts=0, acked=0, failed=0, explained=0, budget=0, mt_runs=0, ct_runs=0)
-    for res in parallel_map(run_case, items, workers=8):
+    items += [(seed, i, rng.choice([2, 4, 8]), "pg") for i in range(n_pg)]
+    n_churn = 24 if tier == "quick" else 600
+    items += [(seed, i, rng.choice([4, 8, 16]), "churn") for i in range(n_churn)]
+    tot = dict(stmts=0, acked=0, failed=0, explained=0, budget=0, mt_runs=0, ct_runs=0, pg_runs=0, pg_explained=0)
+    for res in parallel_map(run_any_case, items, workers=8):
         rep.evaluations += 1
         if res["inconclusive"]:
-            rep.inc(("mt: " if res["mt"] else "ct: ") + res["inconclusive"][:50])
+            rep.inc(("pg: " if res.get("pg") else "mt: " if res["mt"] else "ct: ") + res["inconclusive"][:50])
             continue
         info = res["info"]
         tot["stmts"] += info["stmts"]
         tot["acked"] += info["acked"]
         tot["failed"] += info["failed"]
-        tot["mt_runs" if res["mt"] else "ct_runs"] += 1
+        if res.get("churn"):
+            tot["churn_runs"] = tot.get("churn_runs", 0) + 1
+            tot["churn_stmts"] = tot.get("churn_stmts", 0) + info["stmts"]
+            for sig, what in res["violations"]:
+                rep.add_violation(Violation(sig, "[DDL churn, multi-thread runtime] " + what, dict(seed=res["seed"], idx=res["idx"], mt=res["mt"], churn=True)))
+            rep.sample(res["sample"], limit=4)
+            continue
+        tot["pg_runs" if res.get("pg") else "mt_runs" if res["mt"] else "ct_runs"] += 1
         if info["verdict"] is True:
             tot["explained"] += 1
+            if res.get("pg"):
+                tot["pg_explained"] += 1
         elif info["verdict"] is None and not res["violations"]:
             tot["budget"] += 1
             rep.inc("serial-order search budget exhausted")
@@ -332,11 +574,15 @@ def run(tier, seed):
             rep.distinct.add(h(sess))
         rep.sample(res["sample"], limit=3)
         for sig, what in res["violations"]:
-            rep.add_violation(Violation(sig, ("[multi-thread runtime] " if res["mt"] else "") + what, dict(seed=res["seed"], idx=res["idx"], mt=res["mt"])))
+            rep.add_violation(Violation(sig, ("[PostgreSQL-protocol server] " if res.get("pg") else "[multi-thread runtime] " if res["mt"] else "") + what,
+                                        dict(seed=res["seed"], idx=res["idx"], mt=res["mt"], pg=bool(res.get("pg")))))
     run_sentinels(rep, sentinel)
     rep.coverage.update(statements=tot["stmts"], acknowledged=tot["acked"], failed=tot["failed"],
                         histories_explained_by_a_serial_order=tot["explained"], current_thread_runs=tot["ct_runs"],
-                        multi_thread_runs=tot["mt_runs"])
+                        multi_thread_runs=tot["mt_runs"], pg_server_runs=tot["pg_runs"], pg_server_histories_explained=tot["pg_explained"])
+    rep.coverage.update(ddl_churn_runs=tot.get("churn_runs", 0), ddl_churn_statements=tot.get("churn_stmts", 0))
+    rep.floor("DDL churn runs judged", tot.get("churn_runs", 0), n_churn // 2)
+    rep.floor("PostgreSQL-protocol server histories explained", tot["pg_explained"], n_pg // 2)
     rep.floor("histories explained", tot["explained"], (n_ct + n_mt) // 2)
     rep.floor("multi-thread runs judged", tot["mt_runs"], n_mt // 2)
     rep.assumptions = ["per-session order only (no real-time order across sessions is required)",
